@@ -3,6 +3,8 @@ package mp4
 import (
 	"fmt"
 	"io"
+	"strconv"
+	"strings"
 
 	"github.com/Eyevinn/mp4ff/bits"
 )
@@ -140,10 +142,11 @@ func (b *TrefTypeBox) EncodeSW(sw bits.SliceWriter) error {
 // Info - write box-specific information
 func (b *TrefTypeBox) Info(w io.Writer, specificBoxLevels, indent, indentStep string) error {
 	bd := newInfoDumper(w, indent, b, -1, 0)
-	msg := " - trackIDs: "
+	var msg strings.Builder // Linear in the number of track IDs
+	msg.WriteString(" - trackIDs: ")
 	for _, trackID := range b.TrackIDs {
-		msg += fmt.Sprintf(" %d", trackID)
+		msg.WriteString(" " + strconv.FormatUint(uint64(trackID), 10))
 	}
-	bd.write(msg)
+	bd.write("%s", msg.String())
 	return bd.err
 }
